@@ -1,12 +1,21 @@
 /-
   The translated operation classes of the dense-time ONLINE monitor that do not use `intersection`
   (`Rtamt/Py/GeneratedDenseOn.lean`), run under the semantics of `Rtamt/Py/DnOn.lean`, against the mirror
-  `Rtamt/Dense/AlgOn.lean`:
-  (1) `AbsOperation`, `SqrtOperation`, `ExpOperation`, `LnOperation`, `NegateOperation`, `NotOperation` = `mapUn`
-      (`LnOperation.update` has NO sign test: it agrees with `mapUn .ln` exactly when no sample is negative),
-  (2) `OnceOperation` / `HistoricallyOperation` = `scanUpdate pmax` / `scanUpdate pmin`,
-  (3) `SinceOperation` = `sinceUpdate`,
-  (4) `ConstantOperation`, `VariableOperation`.
+  `Rtamt/Dense/AlgOn.lean` - values AND exceptions, for all inputs, no well-formedness assumption on the sample lists:
+  (1) `AbsOperation`, `SqrtOperation`, `ExpOperation`, `NegateOperation`, `NotOperation` `.update` = `mapUn` (the object is
+      returned unchanged).  `LnOperation.update` has NO sign test (the offline `visitLn` and `mapUn .ln` have one) and
+      `builtin "math.log"` is `Val.ln`, which does not raise: the translated method returns the point-wise logarithm on
+      every batch (`gen_LnOperation_update_total`); it equals `mapUn .ln` exactly on the batches without a negative sample
+      (`gen_LnOperation_update`) and differs on all others (`gen_LnOperation_update_differs`: mirror `.error .other`,
+      translated code `.ok`; CPython's `math.log` raises `ValueError` there - and at 0, where mirror and embedding return
+      `Val.ln 0`).
+  (2) `OnceOperation` / `HistoricallyOperation` = `scanUpdate pmax` / `scanUpdate pmin` (relation `ScanRel`),
+  (3) `SinceOperation` = `sinceUpdate` (relation `SinceRel`; fuel: `len(a) + len(b) + 1`),
+  (4) `ConstantOperation`, `VariableOperation`,
+  (5), (6) the same through `updateObj` / `construct` of the runner `Rtamt/Py/RunDnOn.lean`.
+  The relations speak about lookups in the object's store and require every key of the store to be an attribute name
+  (`isSelfKey`): an attribute store with a key `sample` would shadow the parameter (`runFn` puts the store in front of the
+  arguments); the stores `runFn` returns satisfy it.
 -/
 import RtamtProofs.GenDenseOnBase
 
@@ -1031,6 +1040,54 @@ theorem loop_spec : ∀ (n : Nat) (a b : ASig α) (v : DV α) (prev : α) (last 
         simp only [List.length_cons] at hn
         omega
 
+/-- the whole body of `SinceOperation.update` on locals that hold the attributes of the state `st` and the two batches -/
+theorem run_spec (env0 : Env α) (st : SinceSt α) (sl sr : ASig α) (v : DV α)
+    (g1 : getLoc "self.sample_left_buf" env0 = .ok (encSig st.bufA))
+    (g2 : getLoc "self.sample_right_buf" env0 = .ok (encSig st.bufB))
+    (g3 : getLoc "self.prev" env0 = .ok v) (htv : toVal v = .ok st.prev)
+    (g4 : getLoc "self.last" env0 = .ok (encOptSmp st.last))
+    (g5 : getLoc "sample_left" env0 = .ok (encSig sl)) (g6 : getLoc "sample_right" env0 = .ok (encSig sr))
+    (r1 : resolve env0 "len" = "len") (r2 : resolve env0 "max" = "max") (r3 : resolve env0 "min" = "min")
+    (hf : st.bufA.length + sl.length + st.bufB.length + sr.length + 1 ≤ fuel) :
+    ∃ env' v', exec call fuel Gen.DenseOn.SinceOperation_update.body env0 =
+        .ok (env', .ret (encSig (sinceUpdate st sl sr).2)) ∧
+      getLoc "self.sample_left_buf" env' = .ok (encSig (sinceUpdate st sl sr).1.bufA) ∧
+      getLoc "self.sample_right_buf" env' = .ok (encSig (sinceUpdate st sl sr).1.bufB) ∧
+      getLoc "self.prev" env' = .ok v' ∧ toVal v' = .ok (sinceUpdate st sl sr).1.prev ∧
+      getLoc "self.last" env' = .ok (encOptSmp (sinceUpdate st sl sr).1.last) := by
+  have hinv : SInv (setLoc "last" (encOptSmp st.last) (setLoc "j" (.int 1) (setLoc "i" (.int 1)
+      (setLoc "b" (encSig (st.bufB ++ sr)) (setLoc "a" (encSig (st.bufA ++ sl)) (setLoc "sample_result" (.list []) env0))))))
+      (st.bufA ++ sl) (st.bufB ++ sr) v st.prev st.last [] := by
+    constructor <;> simp [g3, htv, r1, r2, r3, encSig]
+  obtain ⟨env1, v1, hloop, inv⟩ := loop_spec call fuel C fuel _ _ _ _ _ _ _
+    (by simp only [List.length_append]; omega) hinv
+  have hpost : exec call fuel sincePost env1 =
+      .ok (setLoc "self.last" (encOptSmp (AlgOn.sinceLoop (st.bufA ++ sl) (st.bufB ++ sr) st.prev st.last []).2.2.2.1)
+        (setLoc "self.sample_right_buf" (encSig (AlgOn.sinceLoop (st.bufA ++ sl) (st.bufB ++ sr) st.prev st.last []).2.1)
+          (setLoc "self.sample_left_buf" (encSig (AlgOn.sinceLoop (st.bufA ++ sl) (st.bufB ++ sr) st.prev st.last []).1) env1)),
+        .ret (encSig (AlgOn.sinceLoop (st.bufA ++ sl) (st.bufB ++ sr) st.prev st.last []).2.2.2.2)) := by
+    simp [sincePost, exec, evalE, inv.a, inv.b, inv.last, inv.res]
+  refine ⟨setLoc "self.last" (encOptSmp (AlgOn.sinceLoop (st.bufA ++ sl) (st.bufB ++ sr) st.prev st.last []).2.2.2.1)
+        (setLoc "self.sample_right_buf" (encSig (AlgOn.sinceLoop (st.bufA ++ sl) (st.bufB ++ sr) st.prev st.last []).2.1)
+          (setLoc "self.sample_left_buf" (encSig (AlgOn.sinceLoop (st.bufA ++ sl) (st.bufB ++ sr) st.prev st.last []).1) env1)), v1, ?_, ?_, ?_, ?_, inv.tv, ?_⟩
+  · rw [SinceOperation_update_body,
+      exec_seq_ok call fuel (exec_setLoc call fuel (v := .list []) (by simp [evalE])),
+      exec_seq_ok call fuel (exec_setLoc call fuel (v := encSig (st.bufA ++ sl))
+        (by simp [evalE, g1, g5, evalBin, isCmp, arith, encSig])),
+      exec_seq_ok call fuel (exec_setLoc call fuel (v := encSig (st.bufB ++ sr))
+        (by simp [evalE, g2, g6, evalBin, isCmp, arith, encSig])),
+      exec_seq_ok call fuel (b := .seq (.setLoc "last" (.loc "self.last")) (.seq (.while_ sinceCond sinceBody) sincePost))
+        (env' := setLoc "j" (.int 1) (setLoc "i" (.int 1) (setLoc "b" (encSig (st.bufB ++ sr))
+          (setLoc "a" (encSig (st.bufA ++ sl)) (setLoc "sample_result" (.list []) env0)))))
+        (by simp [exec, evalE]),
+      exec_seq_ok call fuel (exec_setLoc call fuel (v := encOptSmp st.last) (by simp [evalE, g4])),
+      exec_seq_ok call fuel (by rw [exec_while]; exact hloop), hpost]
+    rfl
+  · simp; rfl
+  · simp; rfl
+  · simp [inv.pv]
+  · simp; rfl
+
 end body
 
 end GOnUn
@@ -1042,5 +1099,268 @@ def SinceRel (st : SinceSt α) (o : DV α) : Prop :=
     store.lookup "self.sample_right_buf" = some (encSig st.bufB) ∧
     (∃ v, store.lookup "self.prev" = some v ∧ toVal v = .ok st.prev) ∧
     store.lookup "self.last" = some (encOptSmp st.last)
+
+theorem gen_SinceOperation_init (fuel k : Nat) : ∃ o : DV α,
+    callAt Gen.DenseOn.fns fuel (k + 1) "SinceOperation.__init__" [.obj "SinceOperation" []] = .ok (.list [o, .none]) ∧
+      SinceRel { prev := Val.ninf } o := by
+  refine ⟨_, init_generic fuel k _ Gen.DenseOn.SinceOperation_init "SinceOperation"
+    (setLoc "self.last" (.list []) (setLoc "self.prev" (.uinf true) (setLoc "self.sample_right_buf" (.list [])
+      (setLoc "self.sample_left_buf" (.list []) [])))) rfl rfl rfl ?_, _, rfl, selfKeys_filter _, ?_, ?_, ⟨.uinf true, ?_, rfl⟩, ?_⟩
+  · simp [Gen.DenseOn.SinceOperation_init, exec, evalE, evalNeg]
+  all_goals rw [lookup_filter_self _ _ (by selfkey)]
+  all_goals exact getLoc_of_lookup (by simp [encSig, encOptSmp])
+
+/-- `SinceOperation.update` = `sinceUpdate`; the `while` loop runs at most `len(a) + len(b)` times -/
+theorem gen_SinceOperation_update (fuel k : Nat) (st : SinceSt α) (o : DV α) (h : SinceRel st o) (sl sr : ASig α)
+    (hf : st.bufA.length + sl.length + st.bufB.length + sr.length + 1 ≤ fuel) :
+    ∃ o', callAt Gen.DenseOn.fns fuel (k + 1) "SinceOperation.update" [o, encSig sl, encSig sr] =
+        .ok (.list [o', encSig (sinceUpdate st sl sr).2]) ∧
+      SinceRel (sinceUpdate st sl sr).1 o' := by
+  obtain ⟨store, rfl, hs, h1, h2, ⟨v, h3, htv⟩, h4⟩ := h
+  obtain ⟨env', v', hex, e1, e2, e3, e4, e5⟩ := run_spec (callAt Gen.DenseOn.fns fuel k) fuel (calls_callAt fuel k)
+    (store ++ [("sample_left", encSig sl), ("sample_right", encSig sr)]) st sl sr v
+    (getLoc_append_some _ _ _ _ h1) (getLoc_append_some _ _ _ _ h2) (getLoc_append_some _ _ _ _ h3) htv
+    (getLoc_append_some _ _ _ _ h4)
+    (by rw [getLoc_append_nonself _ _ _ hs (by selfkey)]; simp)
+    (by rw [getLoc_append_nonself _ _ _ hs (by selfkey)]; simp)
+    (by rw [resolve_append_nonself _ _ _ hs (by selfkey)]; simp)
+    (by rw [resolve_append_nonself _ _ _ hs (by selfkey)]; simp)
+    (by rw [resolve_append_nonself _ _ _ hs (by selfkey)]; simp) hf
+  refine ⟨.obj "SinceOperation" (env'.filter selfP), ?_, _, rfl, selfKeys_filter _, ?_, ?_, ⟨v', ?_, e4⟩, ?_⟩
+  · rw [call_method fuel k "SinceOperation.update" Gen.DenseOn.SinceOperation_update "SinceOperation" store
+      [encSig sl, encSig sr] rfl rfl rfl]
+    have hz : (Gen.DenseOn.SinceOperation_update.params.drop 1).zip [encSig sl, encSig sr] =
+        ([("sample_left", encSig sl), ("sample_right", encSig sr)] : Env α) := rfl
+    rw [hz, hex]
+    rfl
+  all_goals rw [lookup_filter_self _ _ (by selfkey)]
+  · exact getLoc_of_lookup e1
+  · exact getLoc_of_lookup e2
+  · exact getLoc_of_lookup e3
+  · exact getLoc_of_lookup e5
+
+/-! ### (4) `ConstantOperation`, `VariableOperation` (the runner `RunDnOn.lean` models the leaves by hand) -/
+
+/-- The object of `ConstantOperation` for the constant `c`; `first` is the attribute `is_first_sample`. -/
+def ConstRel (c : α) (first : Bool) (o : DV α) : Prop :=
+  ∃ store, o = .obj "ConstantOperation" store ∧ (∀ p ∈ store, isSelfKey p.1 = true) ∧
+    store.lookup "self.val" = some (.val c) ∧ store.lookup "self.is_first_sample" = some (.bool first)
+
+theorem gen_ConstantOperation_init (fuel k : Nat) (c : α) : ∃ o : DV α,
+    callAt Gen.DenseOn.fns fuel (k + 1) "ConstantOperation.__init__" [.obj "ConstantOperation" [], .val c] =
+        .ok (.list [o, .none]) ∧
+      ConstRel c true o := by
+  refine ⟨.obj "ConstantOperation" ((setLoc "self.is_first_sample" (.bool true) (setLoc "self.val" (.val c)
+      [("val", .val c)])).filter selfP), ?_, _, rfl, selfKeys_filter _, ?_, ?_⟩
+  · rw [call_method fuel k "ConstantOperation.__init__" Gen.DenseOn.ConstantOperation_init "ConstantOperation" []
+      [.val c] rfl rfl rfl]
+    have hz : ([] : Env α) ++ (Gen.DenseOn.ConstantOperation_init.params.drop 1).zip [DV.val c] = [("val", .val c)] := rfl
+    rw [hz]
+    simp [Gen.DenseOn.ConstantOperation_init, exec, evalE]
+  all_goals rw [lookup_filter_self _ _ (by selfkey)]
+  all_goals exact getLoc_of_lookup (by simp)
+
+/-- `ConstantOperation.update` never clears `is_first_sample`: a fresh object returns `[[0, c], [inf, c]]` at EVERY call (it is
+    the update visitor that hands the signal over only once: `constants_sent`), and the object is returned unchanged. -/
+theorem gen_ConstantOperation_update (fuel k : Nat) (c : α) (first : Bool) (o : DV α) (h : ConstRel c first o) :
+    callAt Gen.DenseOn.fns fuel (k + 1) "ConstantOperation.update" [o] =
+      .ok (.list [o, encSig (if first then [(Tm.zero, c), (.inf, c)] else [])]) := by
+  obtain ⟨store, rfl, hs, h1, h2⟩ := h
+  rw [call_method fuel k "ConstantOperation.update" Gen.DenseOn.ConstantOperation_update "ConstantOperation" store
+    [] rfl rfl rfl]
+  have hz : store ++ (Gen.DenseOn.ConstantOperation_update.params.drop 1).zip ([] : List (DV α)) = store := by
+    simp [Gen.DenseOn.ConstantOperation_update]
+  have g1 : getLoc "self.val" store = .ok (.val c) := by unfold getLoc; rw [h1]
+  have g2 : getLoc "self.is_first_sample" store = .ok (.bool first) := by unfold getLoc; rw [h2]
+  have hf : store.filter selfP = store := List.filter_eq_self.mpr (fun p hp => hs p hp)
+  rw [hz]
+  cases first with
+  | true =>
+      simp [Gen.DenseOn.ConstantOperation_update, exec, evalE, g1, g2, truthy, mkList2, toPayload,
+        filter_setLoc_nonself _ _ _ (show isSelfKey "out" = false by selfkey), hf, encSig, encSmp, Tm.zero]
+  | false =>
+      simp [Gen.DenseOn.ConstantOperation_update, exec, evalE, g1, g2, truthy,
+        filter_setLoc_nonself _ _ _ (show isSelfKey "out" = false by selfkey), hf, encSig]
+
+/-- The object of `VariableOperation` whose attribute `val` holds `x`. -/
+def VarRel (x : DV α) (o : DV α) : Prop :=
+  ∃ store, o = .obj "VariableOperation" store ∧ (∀ p ∈ store, isSelfKey p.1 = true) ∧ store.lookup "self.val" = some x
+
+theorem gen_VariableOperation_init (fuel k : Nat) : ∃ o : DV α,
+    callAt Gen.DenseOn.fns fuel (k + 1) "VariableOperation.__init__" [.obj "VariableOperation" []] =
+        .ok (.list [o, .none]) ∧
+      VarRel .none o := by
+  refine ⟨_, init_generic fuel k _ Gen.DenseOn.VariableOperation_init "VariableOperation"
+    (setLoc "self.val" .none []) rfl rfl rfl ?_, _, rfl, selfKeys_filter _, ?_⟩
+  · simp [Gen.DenseOn.VariableOperation_init, exec, evalE]
+  · rw [lookup_filter_self _ _ (by selfkey), lookup_setLoc_same]
+
+/-- `VariableOperation.update` returns the attribute `val` (`None` on a fresh object: the class is a placeholder, the update
+    visitor reads the variable's batch itself). -/
+theorem gen_VariableOperation_update (fuel k : Nat) (x : DV α) (o : DV α) (h : VarRel x o) :
+    callAt Gen.DenseOn.fns fuel (k + 1) "VariableOperation.update" [o] = .ok (.list [o, x]) := by
+  obtain ⟨store, rfl, hs, h1⟩ := h
+  rw [call_method fuel k "VariableOperation.update" Gen.DenseOn.VariableOperation_update "VariableOperation" store
+    [] rfl rfl rfl]
+  have hz : store ++ (Gen.DenseOn.VariableOperation_update.params.drop 1).zip ([] : List (DV α)) = store := by
+    simp [Gen.DenseOn.VariableOperation_update]
+  have g1 : getLoc "self.val" store = .ok x := by unfold getLoc; rw [h1]
+  have hf : store.filter selfP = store := List.filter_eq_self.mpr (fun p hp => hs p hp)
+  rw [hz]
+  simp [Gen.DenseOn.VariableOperation_update, exec, evalE, g1, hf]
+
+/-! ### (5) the same through `updateObj` of the runner `RunDnOn.lean` (`depth = 7`) -/
+
+namespace GOnUn
+
+theorem updateObj_un (fuel : Nat) (cls name : String) (hn : cls ++ ".update" = name)
+    (F : ASig α → Except PyErr (ASig α))
+    (hu : ∀ (o : DV α), UnRel cls o → ∀ s,
+      callAt Gen.DenseOn.fns fuel depth name [o, encSig s] = (F s).map (fun out => .list [o, encSig out]))
+    (o : DV α) (h : UnRel cls o) (s : ASig α) :
+    updateObj fuel o [s] = (F s).map (fun out => (o, out)) := by
+  have hu' := hu o h s
+  obtain ⟨store, rfl, hs⟩ := h
+  unfold updateObj
+  simp only [hn, List.map_cons, List.map_nil]
+  rw [hu']
+  cases F s with
+  | error e => rfl
+  | ok out => simp
+
+theorem updateObj_scan (fuel : Nat) (cls name : String) (hn : cls ++ ".update" = name) (comb : α → α → α)
+    (hu : ∀ (prev : α) (o : DV α), ScanRel cls prev o → ∀ s, ∃ o',
+      callAt Gen.DenseOn.fns fuel depth name [o, encSig s] = .ok (.list [o', encSig (scanUpdate comb prev s).2]) ∧
+        ScanRel cls (scanUpdate comb prev s).1 o')
+    (prev : α) (o : DV α) (h : ScanRel cls prev o) (s : ASig α) :
+    ∃ o', updateObj fuel o [s] = .ok (o', (scanUpdate comb prev s).2) ∧ ScanRel cls (scanUpdate comb prev s).1 o' := by
+  obtain ⟨o', h1, h2⟩ := hu prev o h s
+  obtain ⟨store, rfl, hs⟩ := h
+  refine ⟨o', ?_, h2⟩
+  unfold updateObj
+  simp only [hn, List.map_cons, List.map_nil]
+  rw [h1]
+  simp
+
+end GOnUn
+
+theorem updateObj_AbsOperation (fuel : Nat) (o : DV α) (h : UnRel "AbsOperation" o) (s : ASig α) :
+    updateObj fuel o [s] = (mapUn .abs s).map (fun out => (o, out)) :=
+  updateObj_un fuel "AbsOperation" "AbsOperation.update" (by decide) (mapUn .abs)
+    (fun o h s => gen_AbsOperation_update fuel 6 o h s) o h s
+
+theorem updateObj_SqrtOperation (fuel : Nat) (o : DV α) (h : UnRel "SqrtOperation" o) (s : ASig α) :
+    updateObj fuel o [s] = (mapUn .sqrt s).map (fun out => (o, out)) :=
+  updateObj_un fuel "SqrtOperation" "SqrtOperation.update" (by decide) (mapUn .sqrt)
+    (fun o h s => gen_SqrtOperation_update fuel 6 o h s) o h s
+
+theorem updateObj_ExpOperation (fuel : Nat) (o : DV α) (h : UnRel "ExpOperation" o) (s : ASig α) :
+    updateObj fuel o [s] = (mapUn .exp s).map (fun out => (o, out)) :=
+  updateObj_un fuel "ExpOperation" "ExpOperation.update" (by decide) (mapUn .exp)
+    (fun o h s => gen_ExpOperation_update fuel 6 o h s) o h s
+
+theorem updateObj_NegateOperation (fuel : Nat) (o : DV α) (h : UnRel "NegateOperation" o) (s : ASig α) :
+    updateObj fuel o [s] = (mapUn .negate s).map (fun out => (o, out)) :=
+  updateObj_un fuel "NegateOperation" "NegateOperation.update" (by decide) (mapUn .negate)
+    (fun o h s => gen_NegateOperation_update fuel 6 o h s) o h s
+
+theorem updateObj_NotOperation (fuel : Nat) (o : DV α) (h : UnRel "NotOperation" o) (s : ASig α) :
+    updateObj fuel o [s] = (mapUn .not s).map (fun out => (o, out)) :=
+  updateObj_un fuel "NotOperation" "NotOperation.update" (by decide) (mapUn .not)
+    (fun o h s => gen_NotOperation_update fuel 6 o h s) o h s
+
+/-- on every batch, negative samples included, the translated `LnOperation` returns the point-wise logarithm -/
+theorem updateObj_LnOperation_total (fuel : Nat) (o : DV α) (h : UnRel "LnOperation" o) (s : ASig α) :
+    updateObj fuel o [s] = .ok (o, s.map (fun p => (p.1, Val.ln p.2))) :=
+  updateObj_un fuel "LnOperation" "LnOperation.update" (by decide)
+    (fun s => .ok (s.map (fun p : Tm × α => (p.1, Val.ln p.2))))
+    (fun o h s => gen_LnOperation_update_total fuel 6 o h s) o h s
+
+theorem updateObj_LnOperation (fuel : Nat) (o : DV α) (h : UnRel "LnOperation" o) (s : ASig α)
+    (hs : ∀ p ∈ s, Val.lt p.2 Val.zero = false) :
+    updateObj fuel o [s] = (mapUn .ln s).map (fun out => (o, out)) := by
+  rw [updateObj_LnOperation_total fuel o h s, mapUn_ln_nonneg s hs]; rfl
+
+theorem updateObj_OnceOperation (fuel : Nat) (prev : α) (o : DV α) (h : ScanRel "OnceOperation" prev o) (s : ASig α) :
+    ∃ o', updateObj fuel o [s] = .ok (o', (scanUpdate pmax prev s).2) ∧
+      ScanRel "OnceOperation" (scanUpdate pmax prev s).1 o' :=
+  updateObj_scan fuel "OnceOperation" "OnceOperation.update" (by decide) pmax
+    (fun prev o h s => gen_OnceOperation_update fuel 6 prev o h s) prev o h s
+
+theorem updateObj_HistoricallyOperation (fuel : Nat) (prev : α) (o : DV α) (h : ScanRel "HistoricallyOperation" prev o)
+    (s : ASig α) :
+    ∃ o', updateObj fuel o [s] = .ok (o', (scanUpdate pmin prev s).2) ∧
+      ScanRel "HistoricallyOperation" (scanUpdate pmin prev s).1 o' :=
+  updateObj_scan fuel "HistoricallyOperation" "HistoricallyOperation.update" (by decide) pmin
+    (fun prev o h s => gen_HistoricallyOperation_update fuel 6 prev o h s) prev o h s
+
+theorem updateObj_SinceOperation (fuel : Nat) (st : SinceSt α) (o : DV α) (h : SinceRel st o) (sl sr : ASig α)
+    (hf : st.bufA.length + sl.length + st.bufB.length + sr.length + 1 ≤ fuel) :
+    ∃ o', updateObj fuel o [sl, sr] = .ok (o', (sinceUpdate st sl sr).2) ∧ SinceRel (sinceUpdate st sl sr).1 o' := by
+  obtain ⟨o', h1, h2⟩ := gen_SinceOperation_update fuel 6 st o h sl sr hf
+  obtain ⟨store, rfl, hs⟩ := h
+  refine ⟨o', ?_, h2⟩
+  unfold updateObj
+  simp only [show "SinceOperation" ++ ".update" = "SinceOperation.update" by decide, List.map_cons, List.map_nil]
+  rw [show depth = 6 + 1 from rfl, h1]
+  simp
+
+/-! ### (6) the constructors through `construct` of the runner -/
+
+namespace GOnUn
+
+theorem construct_of_init (fuel : Nat) (cls name : String) (hn : cls ++ ".__init__" = name) (args : List (DV α))
+    (o : DV α) (h : callAt Gen.DenseOn.fns fuel depth name (.obj cls [] :: args) = .ok (.list [o, .none])) :
+    construct fuel cls args = .ok o := by
+  unfold construct
+  rw [hn, h]
+  rfl
+
+end GOnUn
+
+theorem construct_AbsOperation (fuel : Nat) :
+    ∃ o : DV α, construct fuel "AbsOperation" [] = .ok o ∧ UnRel "AbsOperation" o := by
+  obtain ⟨o, h1, h2⟩ := gen_AbsOperation_init (α := α) fuel 6
+  exact ⟨o, construct_of_init fuel _ _ (by decide) [] o h1, h2⟩
+
+theorem construct_SqrtOperation (fuel : Nat) :
+    ∃ o : DV α, construct fuel "SqrtOperation" [] = .ok o ∧ UnRel "SqrtOperation" o := by
+  obtain ⟨o, h1, h2⟩ := gen_SqrtOperation_init (α := α) fuel 6
+  exact ⟨o, construct_of_init fuel _ _ (by decide) [] o h1, h2⟩
+
+theorem construct_ExpOperation (fuel : Nat) :
+    ∃ o : DV α, construct fuel "ExpOperation" [] = .ok o ∧ UnRel "ExpOperation" o := by
+  obtain ⟨o, h1, h2⟩ := gen_ExpOperation_init (α := α) fuel 6
+  exact ⟨o, construct_of_init fuel _ _ (by decide) [] o h1, h2⟩
+
+theorem construct_LnOperation (fuel : Nat) :
+    ∃ o : DV α, construct fuel "LnOperation" [] = .ok o ∧ UnRel "LnOperation" o := by
+  obtain ⟨o, h1, h2⟩ := gen_LnOperation_init (α := α) fuel 6
+  exact ⟨o, construct_of_init fuel _ _ (by decide) [] o h1, h2⟩
+
+theorem construct_NegateOperation (fuel : Nat) :
+    ∃ o : DV α, construct fuel "NegateOperation" [] = .ok o ∧ UnRel "NegateOperation" o := by
+  obtain ⟨o, h1, h2⟩ := gen_NegateOperation_init (α := α) fuel 6
+  exact ⟨o, construct_of_init fuel _ _ (by decide) [] o h1, h2⟩
+
+theorem construct_NotOperation (fuel : Nat) :
+    ∃ o : DV α, construct fuel "NotOperation" [] = .ok o ∧ UnRel "NotOperation" o := by
+  obtain ⟨o, h1, h2⟩ := gen_NotOperation_init (α := α) fuel 6
+  exact ⟨o, construct_of_init fuel _ _ (by decide) [] o h1, h2⟩
+
+theorem construct_OnceOperation (fuel : Nat) :
+    ∃ o : DV α, construct fuel "OnceOperation" [] = .ok o ∧ ScanRel "OnceOperation" Val.ninf o := by
+  obtain ⟨o, h1, h2⟩ := gen_OnceOperation_init (α := α) fuel 6
+  exact ⟨o, construct_of_init fuel _ _ (by decide) [] o h1, h2⟩
+
+theorem construct_HistoricallyOperation (fuel : Nat) :
+    ∃ o : DV α, construct fuel "HistoricallyOperation" [] = .ok o ∧ ScanRel "HistoricallyOperation" Val.pinf o := by
+  obtain ⟨o, h1, h2⟩ := gen_HistoricallyOperation_init (α := α) fuel 6
+  exact ⟨o, construct_of_init fuel _ _ (by decide) [] o h1, h2⟩
+
+theorem construct_SinceOperation (fuel : Nat) :
+    ∃ o : DV α, construct fuel "SinceOperation" [] = .ok o ∧ SinceRel { prev := Val.ninf } o := by
+  obtain ⟨o, h1, h2⟩ := gen_SinceOperation_init (α := α) fuel 6
+  exact ⟨o, construct_of_init fuel _ _ (by decide) [] o h1, h2⟩
 
 end Rtamt.Py.DnOn
